@@ -37,3 +37,28 @@ Proof.
     + exists "Z", 0%Z, [NChr " "], (nrhs ex_sq2). repeat split; vm_compute; reflexivity.
   - split; [vm_compute; reflexivity|]. eexists. split; [vm_compute; reflexivity|]. vm_compute. split; reflexivity.
 Qed.
+
+(* ---- the same script written with a parameter in braces, blanks inside brackets, [0] left out: source-side conditions only ---- *)
+Require Import GraphSrcWf GraphSrcGraph.
+Definition ex_src_lay : layout := fun name i =>
+  if String.eqb name "a" then mkLay (SPar " " "") None
+  else if String.eqb name "X" then mkLay SVar (Some (" ", " ", true))
+  else mkLay SVar None.
+Definition ex_sq2b : neq := mkNeq [NTerm "Z" (IInt 0%Z); NChr " "] [NChr " "; NTerm "Y" (IInt 0%Z); NChr " "; NChr "<"; NChr " "; NFunc "max"; NChr "("; NTerm "X" (IInt 1%Z); NChr ")"].
+Definition ex_src_script : string := denorm_text ex_src_lay ex_sq1 ++ nl_s ++ denorm_text ex_src_lay ex_sq2b.
+Example ex_src_script_hyps :
+  ex_src_script = "Y = X[ -1 ] + Z * { a}" ++ nl_s ++ "Z = Y < max(X[ +1 ])" /\
+  Forall (stmt_src_q ex_src_lay) [ex_sq1; ex_sq2b] /\
+  split_M ex_src_script = (map (denorm_text ex_src_lay) [ex_sq1; ex_sq2b], None) /\
+  exists syms, parse_model_nocheck ex_src_script = POk syms /\
+    match symbols_to_graph_M syms with
+    | Ret g => in_edges g "Y[t]" = ["X[t-1]"; "Z[t]"; "a[t]"] /\ in_edges g "Z[t]" = ["Y[t]"; "max"; "X[t+1]"]
+    | Raise _ => False
+    end.
+Proof.
+  split; [vm_compute; reflexivity|]. split.
+  - constructor; [|constructor; [|constructor]].
+    + exists "Y", 0%Z, [NChr " "], (nrhs ex_sq1). repeat split; vm_compute; reflexivity.
+    + exists "Z", 0%Z, [NChr " "], (nrhs ex_sq2b). repeat split; vm_compute; reflexivity.
+  - split; [vm_compute; reflexivity|]. eexists. split; [vm_compute; reflexivity|]. vm_compute. split; reflexivity.
+Qed.
